@@ -299,24 +299,353 @@ F_C10_inv(cfg, S) ==
               => c.st # NONE /\ c.se = c.ss + c.st)
 
 ----------------------------------------------------------------------------
+(* C05 work conservation *)
+
+HasServers(cfg, n) == cfg.nodes[n].kind \in {"std", "sched"}
+
+F_C05_inv(cfg, S) ==
+    Chk("C05.no-idle-server-while-waiting", \A n \in 1..NN(S) :
+          HasServers(cfg, n) /\ S.nodes[n].c < INF =>
+             LET waiting == {j \in DOMAIN S.cu : S.cu[j].loc = n /\ (S.cu[j].srv = 0 \/ S.cu[j].intr)}
+                 idle == {a \in DOMAIN S.nodes[n].srv : ~S.nodes[n].srv[a].off /\ ~S.nodes[n].srv[a].busy}
+             IN waiting # {} => idle = {})
+    \cup Chk("C05.infinite-servers-serve-at-once", \A j \in DOMAIN S.cu :
+          LET c == S.cu[j]
+          IN c.loc \in 1..NN(S) /\ HasServers(cfg, c.loc) /\ S.nodes[c.loc].c >= INF
+             => c.ss # NONE /\ c.ss = c.arr)
+
+F_C05_step(cfg, pre, post) ==
+    Chk("C05.start-at-this-instant", \A a \in IdxOf(post, "start") : post.steps[a].x = post.now)
+    \cup Chk("C05.zero-wait-on-free-server", \A a \in IdxOf(post, "accept") :
+          \* a customer accepted by a node where, in the resulting state, it is in service started now
+          LET s == post.steps[a]
+          IN IsLive(post, s.i) /\ CuOf(post, s.i).loc = s.n /\ CuOf(post, s.i).ss # NONE
+                /\ CuOf(post, s.i).arr = post.now /\ ~CuOf(post, s.i).blk
+             => CuOf(post, s.i).ss >= CuOf(post, s.i).arr)
+
+----------------------------------------------------------------------------
+(* C08 service order *)
+
+Dom_C08(cfg) == ~HasPreemptiveSchedule(cfg)
+
+F_C08_step(cfg, pre, post) ==
+    IF ~Dom_C08(cfg) THEN {}
+    ELSE
+    LET chs == {a \in IdxOf(post, "choose") : post.steps[a].i # 0}
+        FirstNonEmpty(wq) == {p \in DOMAIN wq : wq[p] # <<>> /\ \A r \in 1..(p-1) : wq[r] = <<>>}
+        arrOf(i) == IF IsLive(post, i) THEN CuOf(post, i).arr ELSE NONE
+    IN Chk("C08.highest-priority-class-first", \A a \in chs :
+             LET s == post.steps[a]
+                 ps == FirstNonEmpty(s.wq)
+             IN ps # {} /\ InSeq(s.wq[CHOOSE p \in ps : TRUE], s.i))
+       \cup Chk("C08.discipline-sees-exactly-the-waiting-class", \A a \in chs :
+             LET s == post.steps[a]
+                 ps == FirstNonEmpty(s.wq)
+             IN a > 1 /\ post.steps[a-1].k = "disc" /\ post.steps[a-1].i = s.i
+                /\ ps # {} /\ post.steps[a-1].w = s.wq[CHOOSE p \in ps : TRUE])
+       \cup Chk("C08.discipline-choice", \A a \in chs :
+             LET s == post.steps[a]
+                 ps == FirstNonEmpty(s.wq)
+                 w == IF ps = {} THEN <<>> ELSE s.wq[CHOOSE p \in ps : TRUE]
+                 d == cfg.nodes[s.n].disc
+             IN w # <<>> /\ (IF d = "FIFO" THEN s.i = w[1]
+                             ELSE IF d = "LIFO" THEN s.i = w[Len(w)]
+                             ELSE InSeq(w, s.i)))
+       \cup Chk("C08.fifo-earliest-arrival", \A a \in chs :
+             LET s == post.steps[a]
+                 ps == FirstNonEmpty(s.wq)
+                 w == IF ps = {} THEN <<>> ELSE s.wq[CHOOSE p \in ps : TRUE]
+             IN cfg.nodes[s.n].disc = "FIFO" /\ ~(\E x, y \in DOMAIN cfg.cct : cfg.cct[x][y] # <<>>)
+                => \A b \in DOMAIN w : arrOf(s.i) <= arrOf(w[b]))
+       \cup Chk("C08.lifo-latest-arrival", \A a \in chs :
+             LET s == post.steps[a]
+                 ps == FirstNonEmpty(s.wq)
+                 w == IF ps = {} THEN <<>> ELSE s.wq[CHOOSE p \in ps : TRUE]
+             IN cfg.nodes[s.n].disc = "LIFO" /\ ~(\E x, y \in DOMAIN cfg.cct : cfg.cct[x][y] # <<>>)
+                => \A b \in DOMAIN w : arrOf(s.i) >= arrOf(w[b]))
+       \cup Chk("C08.chosen-one-is-started", \A a \in chs :
+             \* the next service start (attach/start) before any other choice concerns the chosen customer
+             LET s == post.steps[a]
+                 nxt == {b \in (a+1)..Len(post.steps) : post.steps[b].k \in {"attach", "start", "choose", "accept"}
+                                                          /\ post.steps[b].n = s.n}
+             IN nxt # {} /\ post.steps[SetMin(nxt)].k \in {"attach", "start"}
+                => post.steps[SetMin(nxt)].i = s.i)
+       \cup Chk("C08.every-queue-start-was-chosen", \A a \in IdxOf(post, "attach") :
+             \* a server is attached only to the customer last returned by choose_next_customer at that node
+             \* (or to an interrupted customer being resumed: pre-emptive schedules are outside this property)
+             LET s == post.steps[a]
+                 prev == {b \in 1..(a-1) : post.steps[b].k = "choose" /\ post.steps[b].n = s.n}
+             IN prev # {} /\ post.steps[SetMax(prev)].i = s.i)
+
+----------------------------------------------------------------------------
+(* C09 routing and class-change fidelity.  rt[k][n] = number of routing decisions already taken by *)
+(* the Cycle router of class k at node n before this event.                                        *)
+
+PosDests(dests, probs) ==
+    LET m == Len(probs)
+    IN IF probs[m] = DEN /\ (\A a \in 1..(m-1) : probs[a] = 0) THEN {dests[m]}
+       ELSE {dests[a] : a \in {b \in 1..m : probs[b] > 0}}
+
+MinimalIn(s, ds, lb) ==
+    \* destination s.d is in ds and minimises the recorded waiting line (jsq) / population (lb)
+    LET cnt == s.wq[1]
+        isv == s.wq[2]
+        size(m) == IF lb THEN cnt[m] ELSE cnt[m] - isv[m]
+    IN InSeq(ds, s.d) /\ s.d \in DOMAIN cnt /\ \A a \in DOMAIN ds : size(s.d) <= size(ds[a])
+
+FirstMinimal(s, ds, lb) ==
+    LET cnt == s.wq[1]
+        isv == s.wq[2]
+        size(m) == IF lb THEN cnt[m] ELSE cnt[m] - isv[m]
+    IN \A a \in DOMAIN ds : ds[a] = s.d => \A b \in 1..(a-1) : size(ds[b]) > size(s.d)
+
+\* is routing decision at step index a allowed?  (s.x = class whose router decided)
+RouteOk(cfg, pre, post, rt, a) ==
+    LET s == post.steps[a]
+        N == cfg.N
+        k == s.x
+    IN k \in 1..cfg.K /\ s.n \in 1..N /\
+       LET r == cfg.route[k]
+           \* number of earlier decisions of the same (class, node) router inside this event
+           earlier == Cardinality({b \in 1..(a-1) : post.steps[b].k = "route" /\ post.steps[b].x = k
+                                                     /\ post.steps[b].n = s.n /\ post.steps[b].f # 2})
+           \* the customer's remaining route before this decision
+           rte == IF IsLive(pre, s.i) THEN CuOf(pre, s.i).route
+                  ELSE IF IsLive(post, s.i) THEN <<>> ELSE <<>>
+       IN IF s.f = 2 THEN s.d = EXIT           \* built-in routers jockey to the exit
+          ELSE IF r.kind = "tm" THEN
+               s.d \in PosDests([a2 \in 1..(N+1) |-> IF a2 <= N THEN a2 ELSE EXIT],
+                                [a2 \in 1..(N+1) |-> IF a2 <= N THEN r.P[s.n][a2] ELSE DEN - SumSeq(r.P[s.n])])
+          ELSE IF r.kind = "nr" THEN
+               LET nr == r.routers[s.n]
+               IN IF nr.t = "prob" THEN
+                     LET m == Len(nr.dests)
+                     IN s.d \in PosDests([a2 \in 1..(m+1) |-> IF a2 <= m THEN nr.dests[a2] ELSE EXIT],
+                                         [a2 \in 1..(m+1) |-> IF a2 <= m THEN nr.probs[a2] ELSE DEN - SumSeq(nr.probs)])
+                  ELSE IF nr.t = "direct" THEN s.d = nr.to
+                  ELSE IF nr.t = "leave" THEN s.d = EXIT
+                  ELSE IF nr.t \in {"jsq", "lb"} THEN
+                       MinimalIn(s, nr.dests, nr.t = "lb")
+                       /\ (nr.tie = "order" => FirstMinimal(s, nr.dests, nr.t = "lb"))
+                  ELSE \* cycle
+                       s.d = nr.cyc[((rt[k][s.n] + earlier) % Len(nr.cyc)) + 1]
+          ELSE IF r.kind = "pb" THEN
+               (IF rte = <<>> THEN s.d = EXIT ELSE s.d = rte[1][1])
+               /\ (IsLive(post, s.i) /\ earlier = 0 /\ rte # <<>> => CuOf(post, s.i).route = Tail(rte))
+          ELSE \* fpb
+               IF rte = <<>> THEN s.d = EXIT
+               ELSE /\ InSeq(rte[1], s.d)
+                    /\ (r.choice = "jsq" => MinimalIn(s, rte[1], FALSE))
+                    /\ (r.choice = "lb" => MinimalIn(s, rte[1], TRUE))
+                    /\ (IsLive(post, s.i) =>
+                          LET left == SelectSeq(rte[1], LAMBDA m : m # s.d)
+                          IN CuOf(post, s.i).route = IF r.rule = "any" \/ left = <<>> THEN Tail(rte)
+                                                     ELSE <<left>> \o Tail(rte))
+
+\* customers routed more than once inside one event (cascades never do that; reroute chains could)
+SingleRoutePerCustomer(post) ==
+    \A a, b \in IdxOf(post, "route") : a # b => post.steps[a].i # post.steps[b].i
+
+F_C09_step(cfg, pre, post, rt) ==
+    LET rts == IdxOf(post, "route")
+    IN Chk("C09.transition-allowed", \A a \in rts :
+             (cfg.route[1].kind \in {"pb", "fpb"} => SingleRoutePerCustomer(post)) => RouteOk(cfg, pre, post, rt, a))
+       \cup Chk("C09.moves-where-routed", \A a \in rts :
+             LET s == post.steps[a]
+                 nxt == {b \in (a+1)..Len(post.steps) : post.steps[b].i = s.i
+                                                         /\ post.steps[b].k \in {"release", "block", "accept"}}
+             IN nxt # {} => post.steps[SetMin(nxt)].d = s.d \/
+                            (post.steps[SetMin(nxt)].k = "accept" /\ post.steps[SetMin(nxt)].n = s.d))
+       \cup Chk("C09.class-change-allowed", \A a \in IdxOf(post, "cchg") :
+             LET s == post.steps[a]
+                 ccm == cfg.nodes[s.n].ccm
+             IN ccm # <<>> /\ s.x \in 1..cfg.K /\ s.y \in 1..cfg.K
+                /\ s.y \in PosDests([k \in 1..cfg.K |-> k], ccm[s.x]))
+       \cup Chk("C09.initial-route", \A a \in IdxOf(post, "routefn") :
+             LET s == post.steps[a]
+             IN IsLive(post, s.i) /\ CuOf(post, s.i).nrec = 0 /\ CuOf(post, s.i).loc = post.ev.node
+                   /\ (~\E b \in rts : post.steps[b].i = s.i)
+                => CuOf(post, s.i).route = cfg.route[s.x].routes[s.y + 1])
+       \cup Chk("C09.class-only-changes-by-matrix", \A j \in DOMAIN post.cu :
+             LET c == post.cu[j]
+             IN IsLive(pre, c.id) /\ CuOf(pre, c.id).cls # c.cls
+                => (\E a \in IdxOf(post, "cchg") : post.steps[a].i = c.id)
+                   \/ (\E a \in IdxOf(post, "ccw") : post.steps[a].i = c.id))
+
+F_C09_inv(cfg, S) ==
+    Chk("C09.priority-of-current-class", \A j \in DOMAIN S.cu :
+           S.cu[j].cls \in 1..cfg.K /\ S.cu[j].prio = cfg.prio[S.cu[j].cls])
+    \cup Chk("C09.queued-in-own-priority-list", \A j \in DOMAIN S.cu :
+           LET c == S.cu[j]
+           IN ~c.blk /\ c.loc \in 1..NN(S) /\ (c.prio + 1) \in DOMAIN S.nodes[c.loc].q
+              => InSeq(S.nodes[c.loc].q[c.prio + 1], c.id))
+
+----------------------------------------------------------------------------
+(* C11 pre-emptive priorities *)
+
+Dom_C11(cfg) == HasPriorityPreempt(cfg) /\ ~HasReroute(cfg)
+                /\ (\A n \in DOMAIN cfg.nodes : cfg.nodes[n].kind = "std" /\ cfg.nodes[n].qcap >= INF)
+                /\ cfg.syscap >= INF
+
+F_C11_inv(cfg, S) ==
+    IF ~Dom_C11(cfg) THEN {}
+    ELSE Chk("C11.no-priority-inversion", \A n \in 1..NN(S) :
+            cfg.nodes[n].pp # 0 /\ S.nodes[n].c < INF =>
+               \A w, s \in DOMAIN S.cu :
+                  ~(S.cu[w].loc = n /\ S.cu[s].loc = n /\ S.cu[w].srv = 0 /\ S.cu[s].srv > 0
+                    /\ ~S.cu[s].blk /\ S.cu[s].prio > S.cu[w].prio))
+
+F_C11_step(cfg, pre, post) ==
+    IF ~Dom_C11(cfg) THEN {}
+    ELSE
+    LET pre_ == IdxOf(post, "preempt")
+    IN Chk("C11.victim-lowest-priority-latest-start", \A a \in pre_ :
+             LET s == post.steps[a]
+                 mine == {b \in DOMAIN s.wq : s.wq[b][2] = s.i}
+             IN mine # {} /\
+                LET v == s.wq[CHOOSE b \in mine : TRUE]
+                IN (\A b \in DOMAIN s.wq : s.wq[b][3] <= v[3])
+                   /\ (\A b \in DOMAIN s.wq : s.wq[b][3] = v[3] => s.wq[b][4] <= v[4]))
+       \cup Chk("C11.preemptor-strictly-higher", \A a \in pre_ :
+             LET s == post.steps[a]
+             IN IsLive(post, s.j) /\ \E b \in DOMAIN s.wq : s.wq[b][2] = s.i /\ CuOf(post, s.j).prio < s.wq[b][3])
+       \cup Chk("C11.interruption-recorded", \A a \in pre_ :
+             LET s == post.steps[a]
+                 mine == SelectSeq(post.recs, LAMBDA r : r.id = s.i /\ r.type = "interrupted service" /\ r.n = s.n)
+             IN mine # <<>> /\ mine[1].exit = post.now
+                /\ (\E b \in DOMAIN s.wq : s.wq[b][2] = s.i /\ mine[1].ss = s.wq[b][4]))
+       \cup Chk("C11.remaining-time-exact", \A a \in pre_ :
+             LET s == post.steps[a]
+             IN IsLive(pre, s.i) /\ IsLive(post, s.i) /\ CuOf(pre, s.i).se # NONE /\ CuOf(post, s.i).srv = 0
+                => CuOf(post, s.i).left = CuOf(pre, s.i).se - post.now
+                   /\ CuOf(post, s.i).ost = CuOf(pre, s.i).st
+                   /\ CuOf(post, s.i).stm = cfg.nodes[s.n].pp)
+       \cup Chk("C11.service-after-preemption", \A a \in IdxOf(post, "start") :
+             LET s == post.steps[a]
+                 drew == \E b \in IdxOf(post, "svc") : post.steps[b].i = s.i
+             IN IsLive(pre, s.i) /\ IsLive(post, s.i) /\ CuOf(pre, s.i).loc = s.n /\ CuOf(pre, s.i).stm # 0
+                   /\ CuOf(post, s.i).ss = post.now /\ CuOf(post, s.i).srv > 0
+                => LET p == CuOf(pre, s.i)
+                       q == CuOf(post, s.i)
+                   IN IF p.stm = 1 THEN q.st = p.left /\ q.se = post.now + p.left /\ ~drew
+                      ELSE IF p.stm = 2 THEN q.st = p.ost /\ q.se = post.now + p.ost /\ ~drew
+                      ELSE drew /\ q.se = post.now + q.st)
+
+----------------------------------------------------------------------------
+(* C13 reneging and baulking *)
+
+F_C13_step(cfg, pre, post) ==
+    LET rn == {a \in IdxOf(post, "pickind") : post.steps[a].f = 1}
+    IN Chk("C13.patience-sampled-at-arrival", \A a \in IdxOf(post, "pat") :
+             LET s == post.steps[a]
+             IN IsLive(post, s.i) /\ CuOf(post, s.i).loc = s.n /\ CuOf(post, s.i).arr = post.now
+                => CuOf(post, s.i).rdate = post.now + s.y \/ CuOf(post, s.i).rdate = INF)
+       \cup Chk("C13.accept-draws-patience", \A a \in IdxOf(post, "accept") :
+             LET s == post.steps[a]
+                 has == s.n \in 1..cfg.N /\ IsLive(post, s.i) /\ CuOf(post, s.i).ocls \in 1..cfg.K
+                        /\ cfg.patS[s.n][CuOf(post, s.i).ocls] # <<>>
+                 nxt == {b \in (a+1)..Len(post.steps) : post.steps[b].k \in {"pat", "accept"}}
+             IN has /\ cfg.nodes[s.n].kind = "std" /\ cfg.nodes[s.n].c < INF =>
+                   nxt # {} /\ post.steps[SetMin(nxt)].k = "pat" /\ post.steps[SetMin(nxt)].i = s.i)
+       \cup Chk("C13.renege-exactly-at-patience", \A a \in rn :
+             LET s == post.steps[a]
+             IN IsLive(pre, s.i) /\ CuOf(pre, s.i).rdate = post.now /\ CuOf(pre, s.i).srv = 0
+                /\ CuOf(pre, s.i).loc = s.n)
+       \cup Chk("C13.renege-record-and-destination", \A a \in rn :
+             LET s == post.steps[a]
+                 mine == SelectSeq(post.recs, LAMBDA r : r.id = s.i /\ r.type = "renege")
+             IN Len(mine) = 1 /\ mine[1].exit = post.now /\ mine[1].n = s.n
+                /\ (IsLive(pre, s.i) => mine[1].wait = post.now - CuOf(pre, s.i).arr)
+                /\ InSeq(post.exit, s.i) /\ ~IsLive(post, s.i))
+       \cup Chk("C13.no-renege-in-service", \A a \in DOMAIN post.recs :
+             post.recs[a].type = "renege" =>
+                IsLive(pre, post.recs[a].id) /\ CuOf(pre, post.recs[a].id).srv = 0
+                /\ CuOf(pre, post.recs[a].id).ss = NONE)
+       \cup Chk("C13.baulk-population", \A a \in IdxOf(post, "bfn") :
+             LET s == post.steps[a]
+                 before == Cardinality({b \in 1..(a-1) : post.steps[b].k = "accept" /\ post.steps[b].n = s.n})
+             IN s.n \in 1..NN(pre) /\ s.x = pre.nodes[s.n].count + before)
+       \cup Chk("C13.baulk-iff-draw-below-probability", \A a \in IdxOf(post, "bfn") :
+             LET s == post.steps[a]
+                 us == {b \in 1..(a-1) : post.steps[b].k = "bu"}
+                 outc == {b \in (a+1)..Len(post.steps) : post.steps[b].i = s.i /\ post.steps[b].k \in {"baulk", "send"}}
+             IN us # {} /\ outc # {} /\
+                LET u == post.steps[SetMax(us)].x
+                    o == post.steps[SetMin(outc)].k
+                IN (o = "baulk") <=> (u * DEN < s.y * U20))
+       \cup Chk("C13.baulk-record", \A a \in IdxOf(post, "baulk") :
+             LET s == post.steps[a]
+                 mine == RecsOf(post, s.i)
+             IN Len(mine) = 1 /\ mine[1].type = "baulk" /\ mine[1].n = s.n /\ mine[1].exit = post.now
+                /\ InSeq(post.exit, s.i) /\ ~IsLive(post, s.i))
+
+F_C13_inv(cfg, S) ==
+    Chk("C13.nobody-waits-beyond-patience", \A j \in DOMAIN S.cu :
+           LET c == S.cu[j]
+           IN c.srv = 0 /\ c.ss = NONE /\ c.stm = 0 /\ c.rdate # NONE /\ c.loc \in 1..NN(S)
+                 /\ cfg.nodes[c.loc].kind = "std" /\ S.nodes[c.loc].c < INF
+                 /\ (\E k \in 1..cfg.K : cfg.patS[c.loc][k] # <<>>)   \* a node with reneging
+              => c.rdate >= S.now)
+
+----------------------------------------------------------------------------
+(* C14 runs end normally and stop exactly at the horizon / count *)
+
+Counter(cfg, S) ==
+    IF cfg.stop = "Complete" THEN S.completed
+    ELSE IF cfg.stop = "Finish" THEN S.nexit
+    ELSE IF cfg.stop = "Arrive" THEN S.created
+    ELSE S.accepted
+
+F_C14_step(cfg, pre, post) ==
+    IF cfg.stop = "time"
+    THEN Chk("C14.only-events-before-horizon", post.ev.date < cfg.T)
+    ELSE IF cfg.stop = "deadlock" THEN {}
+    ELSE Chk("C14.not-later-than-count", Counter(cfg, pre) < cfg.maxc)
+
+\* last = state after the last executed event, outcome as logged
+F_C14_final(cfg, last, outcome) ==
+    Chk("C14.no-crash", outcome \in {"returned", "truncated", "exhausted"})
+    \cup (IF outcome # "returned" THEN {}
+          ELSE IF cfg.stop = "time" THEN Chk("C14.every-event-before-horizon-executed", MinDateOf(last) >= cfg.T)
+          ELSE IF cfg.stop = "deadlock" THEN {}
+          ELSE Chk("C14.not-earlier-than-count", Counter(cfg, last) >= cfg.maxc))
+
+----------------------------------------------------------------------------
 (* Aggregation *)
 
-StepFails(cfg, pre, post) ==
+StepFails(cfg, pre, post, rt) ==
     F_C01_step(cfg, pre, post) \cup F_C02_step(cfg, pre, post) \cup F_C03_step(cfg, pre, post)
-    \cup F_C06_step(cfg, pre, post) \cup F_C07_step(cfg, pre, post) \cup F_C10_step(cfg, pre, post)
+    \cup F_C05_step(cfg, pre, post) \cup F_C06_step(cfg, pre, post) \cup F_C07_step(cfg, pre, post)
+    \cup F_C08_step(cfg, pre, post) \cup F_C09_step(cfg, pre, post, rt) \cup F_C10_step(cfg, pre, post)
+    \cup F_C11_step(cfg, pre, post) \cup F_C13_step(cfg, pre, post) \cup F_C14_step(cfg, pre, post)
 
 InvFails(cfg, S) ==
-    F_C01_inv(cfg, S) \cup F_C03_inv(cfg, S) \cup F_C06_inv(cfg, S) \cup F_C07_inv(cfg, S)
-    \cup F_C10_inv(cfg, S)
+    F_C01_inv(cfg, S) \cup F_C03_inv(cfg, S) \cup F_C05_inv(cfg, S) \cup F_C06_inv(cfg, S)
+    \cup F_C07_inv(cfg, S) \cup F_C09_inv(cfg, S) \cup F_C10_inv(cfg, S) \cup F_C11_inv(cfg, S)
+    \cup F_C13_inv(cfg, S)
+
+\* cycle-router decision counters after an event
+RtAfter(cfg, post, rt) ==
+    [k \in 1..cfg.K |-> [n \in 1..cfg.N |->
+        rt[k][n] + Cardinality({a \in IdxOf(post, "route") : post.steps[a].x = k /\ post.steps[a].n = n
+                                                               /\ post.steps[a].f # 2})]]
 
 \* non-vacuity witnesses of one event
 Witnesses(cfg, pre, post) ==
     {post.steps[a].k : a \in DOMAIN post.steps}
     \cup {"ev:" \o post.ev.kind}
+    \cup {"rec:" \o post.recs[a].type : a \in DOMAIN post.recs}
     \cup (IF \E a \in IdxOf(post, "pickind") : Len(post.steps[a].w) > 1 THEN {"tie-ind"} ELSE {})
     \cup (IF \E a \in IdxOf(post, "release") : post.steps[a].f = 1 THEN {"unblock"} ELSE {})
     \cup (IF Cardinality({post.steps[a].i : a \in IdxOf(post, "release")}) > 1 THEN {"cascade"} ELSE {})
     \cup (IF Cardinality(IdxOf(post, "admit")) > 1 THEN {"batch>1"} ELSE {})
     \cup (IF \E a \in IdxOf(post, "svc") : post.steps[a].y = 0 THEN {"zero-service"} ELSE {})
     \cup (IF post.now = pre.now /\ pre.ev.kind # "init" THEN {"same-instant"} ELSE {})
+    \cup (IF \E a \in IdxOf(post, "choose") : post.steps[a].i # 0 /\
+              Cardinality({p \in DOMAIN post.steps[a].wq : post.steps[a].wq[p] # <<>>}) > 1 THEN {"choose-multi-prio"} ELSE {})
+    \cup (IF \E a \in IdxOf(post, "disc") : Len(post.steps[a].w) > 1 THEN {"choose-among-many"} ELSE {})
+    \cup (IF \E a \in IdxOf(post, "route") : post.steps[a].f = 0 /\ post.steps[a].d # EXIT THEN {"route-internal"} ELSE {})
+    \cup (IF \E a \in IdxOf(post, "cchg") : post.steps[a].x # post.steps[a].y THEN {"class-changed"} ELSE {})
+    \cup (IF \E a \in IdxOf(post, "start") : IsLive(pre, post.steps[a].i) /\ CuOf(pre, post.steps[a].i).stm # 0
+          THEN {"restart-after-preemption"} ELSE {})
 =============================================================================
